@@ -166,7 +166,7 @@ impl Check for C11Check {
             0 | 1 => Kind::Fwd { tracks: r.usize(2, 5), noise: *r.pick(&[0.0, 2.0, 5.0]), amp_scale: 1.0 },
             2 => Kind::Hits { pattern: r.below(8) as u8, n: *r.pick(&[13usize, 20, 40, 256]) },
             3 | 4 | 5 => Kind::EvFault {
-                base: BaseEvent { run: *r.pick(&[u32::MAX, u32::MAX, 11084, 9277]), seed: r.next_u64(), n_wires: r.usize(1, 24), n_pad_msgs: r.usize(0, 4), long_only: r.chance(1, 2), pad_start: None, suppressed_only: false },
+                base: BaseEvent { run: *r.pick(&[u32::MAX, u32::MAX, 11084, 9277]), seed: r.next_u64(), n_wires: *r.pick(&[1usize, 3, 9, 24, 40, 80, 256]), n_pad_msgs: r.usize(0, 4), long_only: r.chance(1, 2), pad_start: None, suppressed_only: false },
                 // duplicates (slots 3..=7) and pad faults favoured
                 slot: *r.pick(&[3usize, 4, 5, 6, 7, 9, 13, 14, 15, 16, 0, 2, 18, 100, 29, 30, 31, 29, 30, 31]),
             },
